@@ -105,6 +105,10 @@ pub enum Op {
     /// Monotone, so the reference is the least fixpoint; both the guard and the saturation make
     /// the dependency value-dependent (edges appear and disappear between iterations).
     CallMax { node: u8, arg: Src, add: u32, guard: u32 },
+    /// max-plus programs: `if acc < below { untracked read; acc = max(acc, min(cell, below)) }` —
+    /// monotone (a skipped read could not have contributed), and the read typically happens only
+    /// in the early iterations of a fixpoint
+    UntrackedBelow { cell: u8, below: u32 },
 }
 
 #[derive(Clone, Debug, PartialEq, Eq, Hash, Serialize, Deserialize)]
@@ -619,6 +623,8 @@ pub fn gen_maxplus_program(t: &mut Tape, pf: &Profile) -> Program {
         slots.push(s);
     }
     let n = 2 + t.pick(4);
+    let ncells = if pf.max_cells == 0 { 0 } else { 1 + t.pick(pf.max_cells) };
+    let cells: Vec<u32> = (0..ncells).map(|_| t.pick(VMOD)).collect();
     let mut nodes = vec![];
     for _ in 0..n {
         let mut body = vec![];
@@ -627,10 +633,13 @@ pub fn gen_maxplus_program(t: &mut Tape, pf: &Profile) -> Program {
         }
         for _ in 0..1 + t.pick(3) {
             body.push(Op::CallMax { node: t.pick(n) as u8, arg: Src::Const(0), add: t.weighted(&[3, 2, 2]) as u32, guard: t.weighted(&[4, 2, 1]) as u32 });
+            if ncells > 0 && t.chance(1, 4) {
+                body.push(Op::UntrackedBelow { cell: t.pick(ncells) as u8, below: 1 + t.pick(3) });
+            }
         }
         nodes.push(Node { kind: Kind::Fix, nargs: 1, body, ret_h: false });
     }
-    Program { slots, cells: vec![], nodes, base: 0, on_ent: vec![], on_ent_spec: vec![], on_sym: vec![], lattice: true, coarse_hash: false, sym_hash: false, maxplus: true }
+    Program { slots, cells, nodes, base: 0, on_ent: vec![], on_ent_spec: vec![], on_sym: vec![], lattice: true, coarse_hash: false, sym_hash: false, maxplus: true }
 }
 
 #[allow(clippy::too_many_arguments)]
